@@ -243,6 +243,11 @@ def burst(rng):
             g.emit("ltsubs %s 1000 -" % hx(t))
         else:
             g.emit("dsub " + hx(s))
+    if rng.chance(1, 3):
+        # one request carrying tens of thousands of ack ids (none of them outstanding): it is still one request
+        g.emit("task huge")
+        ids = jl(hx(str(10 ** 6 + i)) for i in range(rng.choice([9000, 20000])))
+        g.emit(("ack %s %s" if rng.chance(1, 2) else "mod %s 10 %s") % (hx(rng.choice(subs)), ids))
     g.emit("go")
     g.emit("pub %s %s" % (hx(t), _payload(rng, "after")))
     for s in subs:
